@@ -92,6 +92,10 @@ func faultFidelityPass(tier string, seed uint64, cov map[string]any) (int, []str
 		cmdArgs = append(cmdArgs, "--", bin)
 		cmdArgs = append(cmdArgs, args...)
 		cmd := exec.Command(pt, cmdArgs...)
+		// no garbage collection in the real process: gxz leaks the input descriptor
+		// when an operand is refused after it was opened, and the finalizer's
+		// close(2) would show up in the call sequence whenever the collector runs
+		cmd.Env = append(os.Environ(), "GOGC=off")
 		var so, se bytes.Buffer
 		cmd.Stdout, cmd.Stderr = &so, &se
 		cmd.Stdin = bytes.NewReader(nil)
@@ -155,7 +159,8 @@ func faultFidelityPass(tier string, seed uint64, cov map[string]any) (int, []str
 			skipped++
 			continue
 		}
-		j := newC10Judge(c)
+		js := c10Judges(c)
+		j := js[0]
 		args := j.v.Args()
 		w0 = buildWorld(c)
 		diag := func(what string, sw *simos.World, sres RunResult, rr *realRes) (int, []string) {
@@ -252,7 +257,13 @@ func faultFidelityPass(tier string, seed uint64, cov map[string]any) (int, []str
 			if srr.killed {
 				res.Exit = 0
 			}
-			if v := j.judge(res, simos.Plan{SigAt: at}, "real-sigint"); v != nil {
+			var v *sim.Violation
+			for _, jk := range js {
+				if v = jk.judge(res, simos.Plan{SigAt: at}, "real-sigint"); v != nil {
+					break
+				}
+			}
+			if v != nil {
 				return diag(fmt.Sprintf("real SIGINT at call %d breaks an invariant that every simulated interleaving kept: %s %s", at, v.Class, v.Detail), rw, res, srr)
 			}
 			os.RemoveAll(srr.dir)
